@@ -141,6 +141,7 @@ example (a b : Bytes) (n : Nat) : OpsSim unitOps a b n (fun d _ _ => d = 0) :=
   { tag := fun _ _ _ _ _ _ => Or.inr ⟨rfl, rfl⟩
     nonTag := fun _ _ _ _ _ _ => Or.inr ⟨rfl, rfl⟩
     text := fun _ _ _ d _ _ _ hd h0 => by omega
+    textOk := fun _ _ _ _ => Or.inr rfl
     startHint := fun _ _ _ _ _ => ⟨rfl, rfl⟩
     endHint := fun _ _ _ _ => ⟨rfl, rfl⟩ }
 
